@@ -49,19 +49,30 @@ Consistent ==
   CASE Ev.a = "insert" -> Ev.rejected = InsertKnot(obj, [d \in 1..Len(Ev.prm) |-> Arg(Ev.prm[d])], [d \in 1..Len(Ev.num) |-> Ev.num[d]]).rejected
     [] Ev.a = "remove" -> CanRemove(obj, Ev.d, ToR(Ev.u), Ev.r)
     [] OTHER -> TRUE
+\* Traces of the random drivers are strict: their removals undo earlier insertions, so they must be lossless.  Traces recorded
+\* from the repository's own tests (strict = FALSE) may remove knots that are not exactly removable: the deliberate deviation
+\* "RemoveForced" - knot vector and sizes are specified, the control points are not.
+Strict == IF "strict" \in DOMAIN Traces[tid] THEN Traces[tid].strict ELSE TRUE
+StructureOnly(e, j) ==
+  /\ \A i \in 1..Len(e.size) : e.size[i] = j.size[i]
+  /\ \A d \in 1..Len(e.kv) : MatchS(e.kv[d], j.kv[d])
+  /\ Len(e.P) = Len(j.P)
+Explained(e) ==
+  /\ Consistent
+  /\ IF Ev.a = "remove" /\ ~Removable(obj, Ev.d, ToR(Ev.u), Ev.r)
+     THEN ~Strict /\ StructureOnly(e, Ev.post)
+     ELSE MatchShape(e, Ev.post)
 Step ==
   /\ l <= Len(Traces[tid].ev)
   /\ \E e \in {Expected} :
-       /\ Consistent
-       /\ MatchShape(e, Ev.post)
-       \* the insert-then-remove steps of the drivers are exactly removable: the removal must be lossless
-       /\ Ev.a = "remove" => Removable(obj, Ev.d, ToR(Ev.u), Ev.r)
-       /\ obj' = e
+       /\ Explained(e)
+       \* after a forced removal the specification adopts the recorded (unspecified) control points
+       /\ obj' = IF Ev.a = "remove" /\ ~Removable(obj, Ev.d, ToR(Ev.u), Ev.r) THEN ToShape(Ev.post) ELSE e
   /\ l' = l + 1 /\ UNCHANGED tid
 \* a rejected event is explained: print the specification's expectation, do not advance
 Explain ==
   /\ l <= Len(Traces[tid].ev)
-  /\ \E e \in {Expected} : ~(Consistent /\ MatchShape(e, Ev.post) /\ (Ev.a = "remove" => Removable(obj, Ev.d, ToR(Ev.u), Ev.r)))
+  /\ \E e \in {Expected} : ~Explained(e)
        /\ PrintT("MISMATCH " \o ToJson([tid |-> Traces[tid].id, l |-> l, a |-> Ev.a, consistent |-> Consistent, expected |-> e]))
   /\ l' = Len(Traces[tid].ev) + 2 /\ UNCHANGED <<tid, obj>>
 Init == tid \in 1..Len(Traces) /\ l = 1 /\ obj = ToShape(Traces[tid].init)
